@@ -1,5 +1,6 @@
 import SSVerif.Proofs.JsonResult
 import SSVerif.Proofs.JsonNoNul
+import SSVerif.Proofs.JsonUtf8
 /-!
 # C14 — The JSON result is well-formed and says what the iterators say
 
@@ -212,6 +213,13 @@ theorem C14_escape_roundtrip (s rest : Bytes) :
     intro h; exact absurd (UInt8.le_iff_toNat_le.mp h1) (by have := UInt8.lt_iff_toNat_lt.mp h; simp at *; omega)
   simp [jsonEscape, escByte, h2, h3, this]
 
+/-- **C14, non-ASCII bytes.**  Bytes ≥ 0x80 are copied verbatim, and escaping is transparent to a UTF-8 decoder:
+the escaped spelling is well-formed UTF-8 (lead/continuation byte shape) exactly when the spelling is.  So the line
+is syntactically valid JSON for *every* spelling (`C14_json_valid`), and its strings are valid UTF-8 exactly when the
+dictionary spellings are. -/
+theorem C14_escape_utf8 (w : Bytes) : isUtf8 (jsonEscape w) = isUtf8 w := by
+  unfold isUtf8; rw [utf8Run_jsonEscape]
+
 /-! ### non-vacuity -/
 
 /-- a rendering stand-in: every number prints as `0.5` -/
@@ -251,5 +259,7 @@ example : resultJson fmtHalf { exResult with align := none } 1 = none := by deci
 -- the repaired one is accepted
 example : parseLine [123, 34, 116, 34, 58, 34, 115, 97, 121, 34, 104, 105, 92, 34, 125, 10] = none := by decide +kernel
 example : (parseLine [123, 34, 116, 34, 58, 34, 115, 97, 121, 92, 34, 104, 105, 92, 92, 34, 125, 10]).isSome = true := by decide +kernel
+-- UTF-8: `é"` stays well-formed after escaping, a lone 0xE9 stays ill-formed
+example : isUtf8 (jsonEscape [195, 169, 34]) = true ∧ isUtf8 (jsonEscape [233, 34]) = false := by decide +kernel
 
 end SSVerif.Json
